@@ -361,12 +361,13 @@ def monitor(ck, sc, r, stats):
                      "committed-offsets-missing")
             stats["committed"] = stats.get("committed", 0) + 1
         elif t["outcome"] in ("aborted",) or (t["outcome"] in ("failed", "killed") and not t["commit_requested"]):
+            auth_err = t.get("exc") in ("TopicAuthorizationFailedError", "GroupAuthorizationFailedError")
             if vis_items:
-                sig = SIG_NO_ENDTXN if had_error else "aborted-records-visible"
+                sig = SIG_NO_ENDTXN if auth_err else "aborted-records-visible"
                 viol(f"{name}: records {vis_items} are visible to a read-committed reader", sig)
             if any(mat.get(o) for o in offs):
                 viol(f"{name}: its offsets were committed to the group",
-                     SIG_NO_ENDTXN if had_error else "aborted-offsets-visible")
+                     SIG_NO_ENDTXN if auth_err else "aborted-offsets-visible")
             stats["aborted_or_dead"] = stats.get("aborted_or_dead", 0) + 1
         else:
             # commit was requested and never returned: all or nothing
@@ -504,6 +505,7 @@ def run(ck: Check):
     ok_t, _ = ck.regenerate(["TxnTable"])
     ok_p, _ = ck.coq_props("C07")
     ck.log(f"translation ok={ok_t}, proofs ok={ok_p} ({time.time() - t0:.0f}s)")
+    wscs, wres = check_witnesses(ck)
     scs, sid, rng = build_scenarios(ck)
     # ---- base runs for systematic fault / kill enumeration
     bases = []
@@ -583,8 +585,8 @@ def run(ck: Check):
         scs.append(sc)
     scs += extra
     results = run_scenarios(scs, timeout=ck.n(900, 3000))
-    results = list(base_res) + results
-    scs = bases + scs
+    results = list(wres) + list(base_res) + results
+    scs = wscs + bases + scs
     ck.log(f"simulated {len(scs)} scenarios ({time.time() - t0:.0f}s)")
 
     stats = {}
@@ -620,7 +622,7 @@ def run(ck: Check):
     ck.log(f"monitors: {stats} ({time.time() - t0:.0f}s)")
 
     # ---- acceptance by the Coq model, outputs equal to the simulator's ground truth
-    per = 40
+    per = 25
     bodies = []
     for i in range(0, len(cases), per):
         lines = []
@@ -715,6 +717,54 @@ def run(ck: Check):
     ck.extra["obligations_broken_on_real_traces"] = {OB_NAMES.get(k, k): v for k, v in ob_stats.items()}
     ck.log(f"model acceptance: {len(cases)} traces, rejected={rejected}, mismatched={mismatched}, "
            f"coq_fail={coq_fail} ({time.time() - t0:.0f}s)")
+
+
+WITNESSES = {
+    "w_abort_without_endtxn": ({"instances": [{"txns": [
+        {"tasks": [[{"p": 0}]], "offsets": {"at": "after", "items": [[0, 7]]}, "end": "commit", "await_sends": False},
+        {"tasks": [[{"p": 0}]], "offsets": None, "end": "commit", "await_sends": False}]}],
+        "faults": {"AddOffsetsToTxn:1": {"kind": "error", "code": 30}}}, (18, 4)),
+    "w_unregistered_produce": ({"instances": [{"txns": [
+        {"tasks": [[{"p": 1}]], "offsets": None, "end": "commit", "await_sends": False}]}],
+        "faults": {"AddPartitionsToTxn:1": {"kind": "error", "code": 29}}}, (12, 1)),
+    "w_commit_without_batch": ({"instances": [{"txns": [
+        {"tasks": [[{"p": 0}]], "offsets": None, "end": "commit", "await_sends": False}]}],
+        "faults": {"Produce:1": {"kind": "error", "code": 29}}}, (12, 2)),
+}
+
+
+def coq_definition_events(name):
+    """The event list of `Definition <name> : list event := [...]` in proof/C07_misc.v."""
+    import re
+    src = open(os.path.join(VERIF, "coq", "proof", "C07_misc.v")).read()
+    m = re.search(r"Definition\s+" + name + r"\s*:\s*list event\s*:=\s*\[(.*?)\]\.", src, re.S)
+    if not m:
+        return None
+    return [" ".join(x.split()) for x in m.group(1).split(";")]
+
+
+def check_witnesses(ck):
+    """The refutation witnesses of props/C07.v are traces of the real producer: re-record them."""
+    base = {"brokers": 1, "partitions": 2, "marker_delay": 0.0, "linger_ms": 0, "max_batch_size": 16384,
+            "request_timeout_ms": 2000, "retry_backoff_ms": 20, "txn_coord": 0, "group_coord": 0, "quiet": 2.0,
+            "moves": {}, "loading": {}, "kills": []}
+    scs = []
+    for k, (name, (sc, _)) in enumerate(WITNESSES.items()):
+        scs.append(dict(base, id=900 + k, **json.loads(json.dumps(sc))))
+    res = run_scenarios(scs)
+    bad = []
+    for (name, (_, want)), sc, r in zip(WITNESSES.items(), scs, res):
+        if not r.get("ok"):
+            bad.append(f"{name}: run failed {r.get('error')}")
+            continue
+        evs = [e for e in project(r) if not e.endswith(" None")]
+        coq = coq_definition_events(name)
+        if coq != evs:
+            diff = next((i for i, (a, b) in enumerate(zip(coq or [], evs)) if a != b), min(len(coq or []), len(evs)))
+            bad.append(f"{name}: the real producer's trace differs from the Coq witness at event {diff}: "
+                       f"real {evs[diff:diff + 3]} vs coq {(coq or [])[diff:diff + 3]}")
+    ck.obligation("correspondence:refutation-witnesses-are-traces-of-the-real-producer", not bad, "; ".join(bad)[:1200])
+    return scs, res
 
 
 def replay(ck: Check, path):
